@@ -164,7 +164,9 @@ class SDBuilder:
         elif t == "emb":
             # "plain0": a plain tensor written with non-negative values, a fifth of them EXACTLY zero (the ordinary
             # way to write a hard embedding; -inf in a log-space semiring)
-            kinds = self.emb_kinds or (NONNEG_KINDS + ["plain0", "plain0"] if self.nonneg else REAL_KINDS)
+            # (opt-in through emb_kinds: checks that move parameters - perturbations, optimiser steps, resets - would
+            # push such a tensor below zero, outside the domain of the lse-sum semiring)
+            kinds = self.emb_kinds or (NONNEG_KINDS if self.nonneg else REAL_KINDS)
             ek = d(st.sampled_from(kinds))
             p = pk("plain", role="nonneg0") if ek == "plain0" else pk(ek)
             if self.cx and p["k"] == "plain" and d(st.booleans()):
